@@ -12,10 +12,11 @@ class Runs:
     """Abstract paths of one entry in both modes (unrolled paths computed on demand)."""
 
     def __init__(self, prog, entry, raise_ops=False, summaries=None, hooks=None, unroll=2, res=None, label='',
-                 max_paths=40000):
+                 max_paths=40000, drop_asserts=False):
         self.prog = prog
         self.entry = entry
-        self.kw = dict(raise_ops=raise_ops, summaries=summaries, hooks=hooks, max_paths=max_paths)
+        self.kw = dict(raise_ops=raise_ops, summaries=summaries, hooks=hooks, max_paths=max_paths,
+                       drop_asserts=drop_asserts)
         self.unroll = unroll
         self.res = res
         self.label = label
